@@ -6,5 +6,7 @@ for p in glob.glob('/verif/seeded/*/meta.json'):
     m=json.load(open(p)); prop=m['id'][:3]
     r=m.get('round') or (3 if m['id'].endswith('3') else 2 if m['id'].endswith('2') else 1)
     m['round']=r
+    if r > 3:
+        continue
     m['first_run_caught']= prop not in {1:missed1,2:missed2,3:missed3}[r]
     json.dump(m,open(p,'w'),indent=1)
